@@ -22,13 +22,11 @@ broken, finding F10).  `query` is `Provenance.query`; a "mask" is its boolean re
   id list (`uniqueIds`) — the ids' numeric values play no other role (`C12_groups_cands` for `k`
   candidates).  `C12_groups_units`: the container has one unit per distinct id `≠ -1`, every such id has
   a position `<` that number, and two ids share a position only if they are equal.
-* `C12_join_partial`: for well padded `p`, `q` in which no stored disjunct is pure padding
-  (`NoPadDisj`), `join p q` is well padded and its mask under `a ++ b` is `x && y` for `x` over the mask of
-  `p` under `a`, `y` over the mask of `q` under `b`, in row-major pair order.
-  MISSING for the briefed statement (all well padded `p`, `q`): the hypothesis `NoPadDisj` cannot be
-  dropped — `C12_join_counterexample` shows that the model's join, applied to a row that carries an
-  all-padding disjunct, yields a row that is true although its left factor is false (a padding disjunct
-  concatenated with a real conjunction is no longer recognised as padding).
+* `C12_join`: for well padded `p`, `q` (any mixture of formula sizes, including rows that carry
+  all-padding disjuncts), `join p q` is well padded and its mask under the concatenated assignment
+  `a ++ b` is `x && y` for `x` over the mask of `p` under `a` and `y` over the mask of `q` under `b`, in
+  row-major pair order.  `C12_join_sem`: the same in terms of the rows' truth values, together with the
+  unit count and row count of the join.
 * `C12_wellPadded`: `fork`, `select`, `join`, `ofGroups` (ids `≠ -1`), `default` produce / preserve
   well padded containers (so that C05 applies to their results).
 -/
@@ -96,10 +94,8 @@ theorem C12_groups_units (ids : List Int) (k : Nat) :
     fun g hg g' hg' h h' he =>
       idxOf_inj_of_mem ((mem_uniqueIds ids g).mpr ⟨hg, h⟩) ((mem_uniqueIds ids g').mpr ⟨hg', h'⟩) he⟩
 
-/-- Briefed statement: the same for all well padded `p`, `q` (without `NoPadDisj`); that statement is
-false for the model's `join`, see `C12_join_counterexample`. -/
-theorem C12_join_partial (p q : P) (a b : List Int) (ma mb : List Bool)
-    (hp : WellPadded p) (hq : WellPadded q) (hnp : NoPadDisj p) (hnq : NoPadDisj q)
+theorem C12_join (p q : P) (a b : List Int) (ma mb : List Bool)
+    (hp : WellPadded p) (hq : WellPadded q)
     (hapos : ∀ v ∈ a, 0 ≤ v) (hbpos : ∀ v ∈ b, 0 ≤ v)
     (hma : query p a = .ok ma) (hmb : query q b = .ok mb) :
     WellPadded (join p q) ∧
@@ -116,18 +112,35 @@ theorem C12_join_partial (p q : P) (a b : List Int) (ma mb : List Bool)
   rw [query_ok p a hp ha hapos] at hma
   rw [query_ok q b hq hb hbpos] at hmb
   cases hma; cases hmb
-  rw [query_join hp hq hnp hnq a b ha hb hapos hbpos, List.flatMap_map]
+  rw [query_join hp hq a b ha hb hapos hbpos, List.flatMap_map]
   simp only [List.map_map]
   rfl
 
-/-- `p = [x0==1, (x0==1)|(x0==0)]`, `q = [y0==1]`, assignment `x0 = 0, y0 = 1`: row 0 of the join is
-reported present although `x0==1` is false. -/
-theorem C12_join_counterexample :
+/-- the same in terms of the rows' truth values, with the shape of the result -/
+theorem C12_join_sem (p q : P) (a b : List Int) (hp : WellPadded p) (hq : WellPadded q)
+    (ha : a.length = p.nUnits) (hb : b.length = q.nUnits)
+    (hapos : ∀ v ∈ a, 0 ≤ v) (hbpos : ∀ v ∈ b, 0 ≤ v) :
+    query (join p q) (a ++ b) =
+      .ok (p.data.flatMap (fun r => q.data.map (fun s =>
+        rowSem (a.map Int.toNat) r && rowSem (b.map Int.toNat) s))) ∧
+    (join p q).nUnits = p.nUnits + q.nUnits ∧ (join p q).data.length = p.data.length * q.data.length := by
+  refine ⟨query_join hp hq a b ha hb hapos hbpos, rfl, ?_⟩
+  rw [join_data]
+  generalize p.data = D
+  induction D with
+  | nil => simp
+  | cons r rs ih =>
+    simp only [List.flatMap_cons, List.length_append, List.length_map, List.length_cons, ih]
+    rw [Nat.add_mul, Nat.one_mul, Nat.add_comm]
+
+/-- `p = [x0==1, (x0==1)|(x0==0)]` (row 0 carries an all-padding disjunct), `q = [y0==1]`, assignment
+`x0 = 0, y0 = 1`: the pair (padding disjunct, `y0==1`) stays padding, row 0 of the join is absent.
+(With a join that merely concatenated every disjunct pair this row was reported present.) -/
+example :
     let p := ofExprs [Expr.eq 0 1, (Expr.eq 0 1).or (Expr.eq 0 0)] 1
     let q := ofExprs [Expr.eq 0 1] 1
-    WellPadded p ∧ WellPadded q ∧ ¬ NoPadDisj p ∧
     query p [0] = .ok [false, true] ∧ query q [1] = .ok [true] ∧
-    query (join p q) [0, 1] = .ok [true, true] := by
+    query (join p q) [0, 1] = .ok [false, true] := by
   decide
 
 theorem C12_wellPadded (p q : P) (hp : WellPadded p) (hq : WellPadded q) (sizes idx : List Nat)
@@ -139,9 +152,14 @@ theorem C12_wellPadded (p q : P) (hp : WellPadded p) (hq : WellPadded q) (sizes 
 
 /-! ### examples -/
 
-example : uniqueIds [5, 7, 5, -3] = [-3, 5, 7] := by decide
-example : query (ofGroups [5, 7, 5, -3]) [0, 1, 0] = .ok [true, false, true, false] := by decide
+/-- group ids `5, 7, 5, -3` are translated to positions `1, 2, 1, 0` -/
+theorem exUnique : uniqueIds [5, 7, 5, -3] = [-3, 5, 7] := by
+  simp [uniqueIds, List.mergeSort, List.eraseDups, List.eraseDupsBy, List.eraseDupsBy.loop]
+
+example : query (ofGroups [5, 7, 5, -3]) [0, 1, 0] = .ok [true, false, true, false] := by
+  rw [C12_groups _ _ (by rw [exUnique]; rfl), exUnique]; decide
 example : query (fork (default 2) [2, 0]) [1, 1] = .ok [true, true] := by decide
-example : query (join (default 2) (ofGroups [4, 4])) [1, 0, 1] = .ok [true, true, false, false] := by decide
+example : query (select (default 3) [2, 0]) [1, 0, 0] = .ok [false, true] := by decide
+example : query (join (default 2) (default 1)) [1, 0, 1] = .ok [true, false] := by decide
 
 end DsProofs.C12
